@@ -7,6 +7,11 @@ BASE_OFF = "for m in $(cat /w/out/gomods.txt); do MF=$(cd /repo/$m && . /w/out/g
 
 # id -> (category, text, design_ref, level_note, technique)
 CHECKS = {
+ "C20": ("fault_enumeration",
+         "Model-based state-machine testing with injected faults (rapid): histories of Find/Prepare/Save/Load over a scripted world (random dependency DAG, version bumps, fingerprints incl. the special values, deleted export files, failing and malformed listings through a stub `go` first on PATH that logs every call), 11 kinds of cache-file damage at generated positions followed by Load, and concurrent Finds in a -race build. Two oracles: a reference model of the cache (data, error, exact number of listing runs per Find) and content freshness (with honest fingerprints the served bytes must be the current export data). Plus a no-spawn search over damaged files that Load must survive. Fault enumeration is by sampling the (fault kind x position x history) space, not exhaustive.",
+         "DESIGN.md §7 C20",
+         "Trusts the stub's rendering of `go list -export` output, os file semantics, and that paths/fingerprints contain no tab or newline. Damage that yields a well-formed file describing different plausible entries (e.g. one flipped byte inside an export path) is outside 'malformed' and only checked for panics.",
+         "property-based stateful testing against a reference model with fault injection (rapid), race detector"),
  "C19": ("exploration",
          "Model-based state-machine testing (rapid): random Set/Delete/At/Len/Keys/Iterate/String histories over a pool of generated type keys containing structurally identical but pointer-distinct rebuilds, aliases, permuted/flattened interfaces, permuted unions, renamed type parameters, separately created instantiations, deliberate hash-collision twins and same-named foreign types; after every step every observable is compared with an association list over types.Identical, and Identical=>equal-hash is checked on all pool pairs. Sampling, not proof: right level because the property quantifies over unbounded histories and type shapes.",
          "DESIGN.md §7 C19",
